@@ -217,8 +217,8 @@ fn lb_exclude(p: &Node) -> Option<&'static str> {
 
 pub fn run(ctx: &Ctx) -> Outcome {
     // 1 + 2: facts monitor over the unrestricted space
-    let sp = spaces::unrestricted(ctx.tier, ctx.seed ^ 13, 4, 4, 3_000, 40_000);
-    let texts = spaces::texts_mb(ctx.tier.pick(2, 3));
+    let sp = spaces::unrestricted(ctx.tier, ctx.seed ^ 13, 4, 4, 60_000, 150_000);
+    let texts = spaces::texts_mb(ctx.tier.pick(3, 3));
     // conditionals inside look-behinds: the only place where a conditional's const_size is read
     let mut fact_patterns = sp.patterns.clone();
     {
@@ -237,7 +237,7 @@ pub fn run(ctx: &Ctx) -> Outcome {
     }
     let mut acc = facts_pass(ctx, &fact_patterns, &texts);
     // 3: behaviour of accepted look-behinds on multi-byte texts, offsets near 0
-    let sp3 = spaces::c01_space(ctx.tier, ctx.seed ^ 13, false, 4, 5, 2, 3, 3_000, 30_000);
+    let sp3 = spaces::c01_space(ctx.tier, ctx.seed ^ 13, false, 4, 5, 2, 3, 10_000, 60_000);
     let mut lb: Vec<Node> = sp3.patterns.into_iter().filter(|p| p.has_lookbehind()).collect();
     // the look-behind contexts with multi-byte fillers
     use crate::ast::Node::*;
